@@ -49,6 +49,40 @@ fn main() {
                 println!("{} {}", p.id, p.subchecks.iter().map(|s| s.name).collect::<Vec<_>>().join(","));
             }
         }
+        "tapes" => {
+            // tape-driven sub-checks of one property with their tape length: the fuzz tier's target list
+            let prop = props::get(&args[2]).expect("property");
+            for sc in &prop.subchecks {
+                if let Kind::Tape { max_len, .. } = sc.kind {
+                    println!("{} {}", sc.name, max_len);
+                }
+            }
+        }
+        "seeds" => {
+            // vcheck seeds <id> <sub> <max_len> <dir>: starting corpus of a fuzz campaign (a pure function of VERIF_SEED)
+            let (id, sub, max_len, dir) = (args[2].clone(), args[3].clone(), args[4].parse::<usize>().expect("max_len"), PathBuf::from(&args[5]));
+            let seed = env_seed();
+            let _ = std::fs::create_dir_all(&dir);
+            let files: Vec<Vec<u8>> = with_big_stack(move || {
+                if id == "C02" && sub.starts_with("direct") {
+                    install_panic_hook();
+                    props::c02::direct_seeds(seed)
+                } else {
+                    let mut out = vec![vec![], vec![0u8; max_len]];
+                    for (i, len) in [max_len / 16, max_len / 4, max_len, max_len].iter().enumerate() {
+                        for j in 0..6u64 {
+                            let mut state = engine::tape::fp_mix(engine::tape::fp_mix(seed, i as u64), j);
+                            out.push((0..*len).map(|k| { state = engine::tape::fp_mix(state, k as u64); state as u8 }).collect());
+                        }
+                    }
+                    out
+                }
+            });
+            for (i, f) in files.iter().enumerate() {
+                let _ = std::fs::write(dir.join(format!("seed-{:04}", i)), f);
+            }
+            println!("{}", files.len());
+        }
         "run" => {
             if args.len() < 4 {
                 usage();
